@@ -9,7 +9,7 @@ ID = "C10"
 PROOF_FILES = ["C10", "C10Var"]
 THEOREM = ("Ufo2ft.C10.C10_kern / C10_kern_reproduced / C10_kern_glyph / C10_anchor / C10_collapse / C10_compat / "
            "deltaModel_law / oneAxis_law / nAxis_law / variationModel_law / C10_varmodel / support_self / support_later_zero / "
-           "C10_outline_partial")
+           "nAxis_law_rounded / nAxis_law_rounded_int / variationModel_law_rounded / C10_outline_rounded / C10_outline_of_law")
 N = {"quick": 120, "thorough": 4000}
 RULE = ("compatible families in memory: 2-6 full masters on 1-2 axes (default + extremes, optional intermediate(s), optional two-axis "
         "corner), optionally a sparse layer master at an intermediate location, axis maps with non-linear nodes, default source not "
@@ -26,7 +26,7 @@ RULE = ("compatible families in memory: 2-6 full masters on 1-2 axes (default + 
         "masters (extremes and intermediates), corners of faces/cube, intermediate masters inside the quadrants (same-quadrant clusters "
         "in search mode), random master order, random dict key order, explicit zeros or sparse dicts, axisOrder none/empty/partial/"
         "full/with a foreign axis, a small stream of rejected inputs (duplicate location, no base master); the sorted order, every "
-        "support box, reverseMapping, deltas and interpolated values at 4 points and at every master are compared exactly with the "
+        "support box, reverseMapping, deltas, the integer deltas getDeltas(values, round=otRound) (master values partly x.5/x.25) and the values interpolated from both at 4 points / at every master are compared exactly with the "
         "real class run on doubles when all coordinates are in {0, +-1/2, +-1} (every ratio dyadic), otherwise order/supports exactly "
         "(also against the same class run on fractions.Fraction) and numbers within 1e-9. "
         "End to end: compileVariableTTF(s)/compileVariableCFF2(s) with variableFeatures on and off, single and multi-VF designspaces; "
@@ -41,7 +41,9 @@ ASSUMED = ["varLib.build_many / merger / instancer and feaLib's variation-store 
            "_computeMasterSupports, supportScalar, getDeltas, interpolateFromDeltas on exact rationals - for any number of axes and "
            "masters; measured here on every family through instancer.instantiateVariableFont)",
            "VariationModel's double arithmetic equals the rational model: exact on dyadic grids (compared exactly), within 1e-9 otherwise; "
-           "the OpenType stores additionally round deltas to integers (C10_outline_partial: within 1 unit)",
+           "the OpenType stores hold getDeltas(values, round=otRound): for the modelled VariationModel the value read back at a "
+           "master is PROVED within 1/2 (C10_outline_rounded: a rounding consumer within 1 unit); that gvar/HVAR/CFF2/GPOS stores and "
+           "the instancer evaluate exactly this model (supports as regions, these deltas, IUP within its tolerance) is measured",
            "feaLib compiles pair rules as written (glyph pairs before class pairs, first definition wins) - C05's assumption",
            "all sources of a family carry the same kerning groups and the same anchor inventory (what 'compatible masters' means for layout)"]
 EXHAUSTIVE = False
@@ -129,7 +131,12 @@ LEVEL_TEXT = ("Proved for all inputs (Lean, unbounded numbers of sources / keys 
               "box (loop invariant regionFold_inv, support_later_zero; of the master order only 'fewer axes first' is needed, and the "
               "modelled sort key is proved to be a total preorder refining it), hence interpolateFromDeltas(loc_i, getDeltas(values)) "
               "= values[i] (nAxis_law; variationModel_law for the constructor on the user's order); the one-axis definitions are "
-              "proved to be the one-axis case of the n-axis ones.")
+              "proved to be the one-axis case of the n-axis ones.  With the integer deltas varLib stores (getDeltas(values, round=otRound): "
+              "each delta rounded after subtracting the ROUNDED earlier contributions) the value read back at master i is within 1/2 "
+              "of the master's value - the error of one rounding (nAxis_law_rounded, variationModel_law_rounded), exact for an "
+              "integer master value when the earlier masters' scalars there are integers (nAxis_law_rounded_int), not exact in "
+              "general (rounded_not_exact_witness: 1/4 off), and rounding the exact deltas independently would miss by 3/4 "
+              "(roundedAfter_witness); hence a rounding consumer is within 1 unit of the integer master (C10_outline_rounded).")
 LEVEL_NOTE = ("Trusted: Lean kernel + standard axioms; the hand-written model is tied to the code by direct calls of the anchored functions and "
               "by instantiating compiled variable fonts; varLib/feaLib/instancer are assumed to satisfy the VarModel law (measured, not proved; "
               "outlines within 1 unit); with more than one intermediate master per axis integer deltas make kerning/anchors exact only within 1 "
